@@ -326,7 +326,7 @@ type c05World struct {
 	strayTok *c05Token
 	// per sequence
 	jar      []c05Cookie
-	toks     []string  // CLI tokens handed out
+	toks     map[string]string // CLI tokens handed out, by "<uid>:<expiry tick>"
 	chals    [][]byte  // challenges handed out by begin ops (raw bytes)
 	asserts  map[string][]byte
 	off      int64 // virtual step = real step + off
@@ -453,7 +453,7 @@ func (w *c05World) reset(f0, b0, f1, b1 int, oktaMode bool) {
 	} else {
 		st.passwordChecker = w.htpw
 	}
-	w.jar, w.toks, w.chals = nil, nil, nil
+	w.jar, w.toks, w.chals = nil, map[string]string{}, nil
 	w.asserts = map[string][]byte{}
 	w.off, w.vnow = 0, 0
 	w.flags = [2]int{f0, f1}
@@ -594,16 +594,19 @@ func (w *c05World) avoidCollision(code string, owner int, d int) string {
 
 func (w *c05World) realStepNow() int64 { return time.Now().Unix() / 30 }
 
-// attach adds the referenced session cookie: index into the jar, "-" none, "x" garbage.
+// attach adds the referenced session cookie: "<uid>:<level>" = the most recent cookie the
+// server issued with that subject and level (nothing if there is none), "-" none, "x" garbage.
 func (w *c05World) attach(req *http.Request, ref string) {
 	switch ref {
 	case "-":
 	case "x":
 		req.AddCookie(&http.Cookie{Name: authCookieName, Value: "eyJhbGciOiJSUzI1NiJ9.e30.AAAA"})
 	default:
-		k, err := strconv.Atoi(ref)
-		if err == nil && k >= 0 && k < len(w.jar) {
-			req.AddCookie(&http.Cookie{Name: authCookieName, Value: w.jar[k].val})
+		for i := len(w.jar) - 1; i >= 0; i-- {
+			if fmt.Sprintf("%d:%d", w.jar[i].uid, w.jar[i].level) == ref {
+				req.AddCookie(&http.Cookie{Name: authCookieName, Value: w.jar[i].val})
+				return
+			}
 		}
 	}
 }
@@ -859,13 +862,17 @@ func (w *c05World) exec(f []string) (string, []string, []string) {
 			if m == nil {
 				return "no-token-in-page", nil, nil
 			}
-			w.toks = append(w.toks, m[1])
+			info, err := st.getAuthInfoFromJWT(m[1], "keymaster_webauth_for_cli_identity")
+			if err != nil {
+				return "undecodable-token", nil, nil
+			}
+			w.toks[fmt.Sprintf("%d:%d", c05Uid(info.Username), w.vnow+life)] = m[1]
 		}
 		return c, ck, ev
 	case f[0] == "senddoc" && len(f) == 3:
 		tok := "not.a.token"
-		if k := c05Atoi(f[2]); k >= 0 && k < len(w.toks) {
-			tok = w.toks[k]
+		if tk, ok := w.toks[f[2]]; ok {
+			tok = tk
 			if info, err := st.getAuthInfoFromJWT(tok, "keymaster_webauth_for_cli_identity"); err == nil && time.Until(info.ExpiresAt) >= 0 {
 				ev = append(ev, fmt.Sprintf("cli:%d", c05Uid(info.Username)))
 			}
